@@ -283,7 +283,9 @@ def main(argv=None):
         obligations=total, discharged=discharged,
         checker_cmd=f"./check {pid} --tier {a.tier}",
         trusted_base=sorted(notes.get("lib", set())) + sorted("summary:" + s for s in notes.get("summary", set())),
-        explanation=getattr(mod, "EXPLANATION", ""),
+        explanation=(getattr(mod, "EXPLANATION", "") or "T1: obligations generated from the real function sources and discharged by z3/cvc5 (counts in this file); "
+                     "T2: bounded run-time contract checking of the real code (evaluations in this file); see DESIGN.md §6 for what each tier covers")
+        + ("" if proved_all or total == 0 else f" [this run: {discharged}/{total} T1 obligations discharged, {len(undecided)} undecided items — level reported as 'other']"),
         functions_under_contract=sorted(functions.values(), key=lambda d: (d["file"], d["lines"][0])),
         lemmas_checked=lemmas_checked, obligations_by_backend=by_backend, conformance_samples=conf_total, conformance_mismatches=conf_bad, solver_seconds=round(solver_s, 2),
         undecided=undecided[:50], bounded_items=sorted(notes.get("bounded", set())),
